@@ -168,6 +168,10 @@ pub fn status_str(status: &CommandStatus) -> String {
 }
 
 pub fn classify_panic(message: &str) -> String {
+    // the crate's own texts first (read through a hook: a reworded message is not a behaviour change)
+    for (site, starts, ends) in verif::panic_text_patterns() {
+        if message.len() >= starts.len() + ends.len() && message.starts_with(&starts) && message.ends_with(&ends) && !(starts.is_empty() && ends.is_empty()) { return site.to_string(); }
+    }
     if message.contains("must be greater than zero") { "weight-not-positive".to_string() }
     else if message.contains("value must be specified") { "upsert-value-missing".to_string() }
     else if message.contains("overflow when adding duration") { "time-overflow".to_string() }
